@@ -71,6 +71,10 @@ func parseRangeHeader(rangeStr string) (rangeHeader, error) {
 		return rangeHeader{}, ErrInvalidRangeUnit
 	}
 
+	if valuesStr == "" {
+		return rangeHeader{}, ErrInvalidRangeFormat
+	}
+
 	firstCh := valuesStr[0]
 	if firstCh == '-' {
 		// Suffix range: last N bytes
@@ -94,6 +98,11 @@ func parseRangeHeader(rangeStr string) (rangeHeader, error) {
 	start, startTail, ok := parseRangeNumber(valuesStr)
 	if !ok {
 		return rangeHeader{}, ErrInvalidRangeValue
+	}
+
+	if startTail >= int64(len(valuesStr)) {
+		// Only a number without the '-' separator
+		return rangeHeader{}, ErrInvalidRangeFormat
 	}
 
 	middleCh := valuesStr[startTail]
